@@ -169,6 +169,15 @@ ALPHABET = [
 ]
 
 
+OVERFLOW_PROBES = [
+    ('exp(1000)', ('exc', 'CalcOverflowError', 'There was an error evaluating exp(...). (Numerical overflow).')),
+    ('sech(1000)', ('exc', 'CalcOverflowError', 'There was an error evaluating sech(...). (Numerical overflow).')),
+    ('cosh(1000)', ('exc', 'CalcOverflowError', 'There was an error evaluating cosh(...). (Numerical overflow).')),
+    ('1e300*1e300', ('exc', 'CalcOverflowError', 'Numerical overflow occurred. Does your expression generate very large numbers?')),
+    ('10^400', ('exc', 'CalcOverflowError', 'Numerical overflow occurred. Does your input generate very large numbers?')),
+]
+
+
 def apply_event(ev, A, B):
     s, op = ev
     if op == 'parse':
@@ -302,6 +311,20 @@ def run_random_histories(ctx):
                     ctx.violation('C10:history:absolute_probe', 'after a MatrixGrader(negative_powers=False) call on %r, [[2,0],[0,4]]^-1 gives %r'
                                   % (ev[0][:60], str(probe)[:200]), {'sequence': [(s[:60], op) for s, op in seq[:pos + 1]][-8:], 'step': pos})
                     break
+            if pos % 5 == 1:
+                # evaluations with infinities allowed (succeeding, raising in the string, raising by division by zero), then ABSOLUTE
+                # probes of the overflow outcomes: what a fresh process gives, whatever was evaluated before and however it ended
+                from mitxgraders.helpers.calc import expressions as E_
+                for s_inf in (ev[0], '1/0', '1e300*1e300', 'x/(y-y)+1e300*1e300'):
+                    outcome_of(lambda: E_.evaluator(s_inf, A[0], A[1], A[2], allow_inf=True))
+                ctx.count('interleaved_allow_inf_evaluations')
+                for ps, want in OVERFLOW_PROBES:
+                    probe = do_eval(ps, A)
+                    ctx.count('absolute_probes')
+                    if probe[:3] != want:
+                        ctx.violation('C10:history:absolute_probe:overflow', 'after evaluations with allow_inf=True (last: %r), %r gives %r; in a fresh process %r'
+                                      % (ev[0][:60], ps, str(probe)[:200], want), {'sequence': [(s[:60], op) for s, op in seq[:pos + 1]][-8:], 'step': pos})
+                        break
             if ev not in baseline:
                 baseline[ev] = with_fresh_parser(lambda: apply_event(ev, A, B))
             got = apply_event(ev, A, B)
